@@ -29,7 +29,7 @@ def run(patch):
         shutil.rmtree(tmp, ignore_errors=True)
     return patch,res
 allres={}
-with ThreadPoolExecutor(max_workers=8) as ex:
+with ThreadPoolExecutor(max_workers=12) as ex:
     for patch,res in ex.map(run, patches):
         name=os.path.basename(patch)[:-6]
         allres[name]=res
